@@ -29,7 +29,7 @@ func init() {
 		if p != pDLNotFound {
 			floors = append(floors, "carry:"+p)
 		}
-		if p != pIndex && p != pMgrDecoy && p != pPull { // on manager-2repos and pull-repo every cross-origin request leaks on the unchanged tree (known findings)
+		if p != pIndex { // (manager-2repos and pull-repo leaked on every cross-origin request before the fix: commits 27ebae8, ec3056d)
 			floors = append(floors, "clean-cross-origin:"+p)
 		}
 		switch p {
@@ -353,17 +353,15 @@ func floorsOf(c *core.Ctx, ev evaluated) {
 	}
 }
 
-// spelledPort: the port as spelled in the chart URL of the case ("" when the
-// chart spelling is a bare reference or has none).
+// spelledPort: the port as spelled in the URL the chart reference of the case
+// stands for (a relative reference inherits the repository's spelling, a
+// network-path reference //host/... has none).
 func spelledPort(cs Case) string {
-	if !isAbsURL(cs.Chart) {
-		u, err := url.Parse(cs.Repo)
-		if err != nil {
-			return ""
-		}
-		return u.Port()
+	s := cs.Chart
+	if !isAbsURL(s) {
+		s = resolveRef(cs.Repo, s)
 	}
-	u, err := url.Parse(cs.Chart)
+	u, err := url.Parse(s)
 	if err != nil {
 		return ""
 	}
